@@ -61,9 +61,9 @@ func sortKeys[K comparable](keys []K) {
 		// Pointers to objects whose creation the run has seen (simrt.Born, placed by
 		// simgen at every &T{...}) are ordered by birth, which is part of the
 		// replayable schedule and tells apart objects that look alike. Only keys
-		// without a birth number are rendered - with the race detector switched
-		// off for the duration: the rendering reads the objects' fields without
-		// the locks their owners use, which is no access of the code under test.
+		// without a birth number are rendered; under the race detector the
+		// rendering does not follow pointers (it would read the objects' fields
+		// without the locks their owners use, and be reported).
 		canon := make([]string, len(keys))
 		s := simTask()
 		for i := range keys {
@@ -80,15 +80,28 @@ func sortKeys[K comparable](keys []K) {
 					}
 				}
 			}
-			raceDisable()
 			canon[i] = canonical(v, 3)
-			raceEnable()
 		}
 		idx := make([]int, len(keys))
 		for i := range idx {
 			idx[i] = i
 		}
-		sort.SliceStable(idx, func(a, b int) bool { return canon[idx[a]] < canon[idx[b]] })
+		// Ties between pointers are broken by address: for pointers into one array
+		// or slice (&buckets[i]) that is the order of the indices, which repeats;
+		// for anything else it is as unrepeatable as the runtime's order, and the
+		// range is counted as ambiguous below either way.
+		addr := make([]uintptr, len(keys))
+		for i := range keys {
+			if v := reflect.ValueOf(&keys[i]).Elem(); v.Kind() == reflect.Ptr && !v.IsNil() {
+				addr[i] = v.Pointer()
+			}
+		}
+		sort.SliceStable(idx, func(a, b int) bool {
+			if canon[idx[a]] != canon[idx[b]] {
+				return canon[idx[a]] < canon[idx[b]]
+			}
+			return addr[idx[a]] < addr[idx[b]]
+		})
 		ties := false
 		out := make([]K, len(keys))
 		for i, j := range idx {
@@ -100,7 +113,7 @@ func sortKeys[K comparable](keys []K) {
 		copy(keys, out)
 		if ties {
 			if s := simTask(); s != nil {
-				s.Stats.AmbiguousRanges++
+				s.noteAmbiguous()
 			}
 		}
 	}
@@ -128,7 +141,7 @@ func canonical(v reflect.Value, depth int) string {
 		if v.IsNil() {
 			return "nil"
 		}
-		if depth == 0 {
+		if depth == 0 || (RaceBuild && v.Kind() == reflect.Ptr) {
 			return "&"
 		}
 		return "&" + canonical(v.Elem(), depth-1)
@@ -220,3 +233,6 @@ func (it *MapIter[K, V]) Key() K { return it.k }
 
 // Val returns the current value.
 func (it *MapIter[K, V]) Val() V { return it.v }
+
+//go:norace
+func (s *Sim) noteAmbiguous() { s.Stats.AmbiguousRanges++ }
